@@ -740,6 +740,20 @@ theorem C16_full_strength_if_cache_owner_only (ho : Gen.C16.cacheOwnerOnly = tru
   ⟨C16_value_valid_Literal_two_level_owner_only ccfg2 ho ccfg2_good.1,
    fun _ h as d k e he => C16_entries_write_once_owner_only ccfg2 ho ccfg2_good.1 h as d k e he⟩
 
+/-- proof obligation on the translator's fact (fix 447541f landed): `cache_activate` records the activating
+    thread and the wrapper consults the cache only when called by that thread; a return to the shared cache
+    breaks this theorem -/
+theorem cfg_cache_owner_only : Gen.C16.cacheOwnerOnly = true := by decide
+
+/-- **C16_cross_thread_full_strength.** For the code as it is now: the LITERAL cross-thread clause (every returned
+    value was the source's content at a moment of that very call, for every interleaving of any number of threads
+    over both cache levels) and the stability of the block owner's first read. -/
+theorem C16_cross_thread_full_strength :
+    C16_value_valid_Literal_two_level ccfg2 ∧
+    (∀ (s : St), Reach ccfg2 s → ∀ (as : List Action) (d : Nat) (k : Key) (e : Entry),
+      s.ents d k = some e → (runD ccfg2 s as).ents d k = some e) :=
+  C16_full_strength_if_cache_owner_only cfg_cache_owner_only
+
 /-- the repaired wrapper on the witness schedules of the two findings -/
 def cfgOwner : CCfg2 := { cfgAsIs with ownerOnly := true }
 
